@@ -83,6 +83,9 @@ def run_concrete_c(program, cname, jargs):
         result = {'f': result.hex()}
     elif isinstance(result, bool):
         result = bool(result)
+    elif hasattr(result, 'oid') and result.oid in st.heap and hasattr(st.heap[result.oid], 'fields'):
+        # a struct returned by value, in the encoding of the native runner
+        result = {'struct': {f: v for f, v in st.heap[result.oid].fields.items()}}
     return ('ok', result, after)
 
 
